@@ -529,6 +529,18 @@ def _s3_case(ctx, rep, rng, model_ok, case_id, directed=None):
         return sorted(ready)[0]
 
     S = sched.Sched(chooser, watchdog_s=30)
+    last_writer = {"a": None, "prev": None}
+    prev_hook = fake.hook
+
+    def lw_hook(phase, op, key, kw, _prev=prev_hook):
+        if _prev is not None:
+            _prev(phase, op, key, kw)
+        if phase == "after" and key.endswith(".locks/metadata.lock"):
+            if op == "put":
+                last_writer["prev"], last_writer["a"] = last_writer["a"], S.actor()
+            elif op == "delete":
+                last_writer["prev"], last_writer["a"] = last_writer["a"], None
+    fake.hook = lw_hook
     saved = (lpm.time, dt.datetime)
     lpm.time = types.SimpleNamespace(time=vt.time, monotonic=vt.monotonic, sleep=lambda s_: S.gate("sleep"))
     _VDatetime.clock = vt
@@ -559,9 +571,16 @@ def _s3_case(ctx, rep, rng, model_ok, case_id, directed=None):
                         rep.violate("C19:is-held-true-without-ownership", f"actor {a}: is_held() True but the lock object names someone else", {"kind": "s3", "steps": list(steps)})
                 elif cmd == "renew":
                     if p.is_locked:
+                        o_before = fake.objects.get("tbl/.locks/metadata.lock")
+                        owner_before = next((b for b, q in provs.items() if o_before is not None and last_writer.get("a") == b), None)
                         p._renew_once()
                         if p.is_locked:
                             acquired_at[a] = vt.t
+                            if last_writer.get("prev") not in (a, None):
+                                # the object this renewal replaced had been written by ANOTHER holder (a takeover): a superseded holder must
+                                # observe its loss, not write over the new owner's lock
+                                rep.violate("C19:renewal-overwrote-another-holders-lock", f"actor {a}'s renewal succeeded over a lock object last written by "
+                                            f"actor {last_writer.get('prev')}", {"kind": "s3", "steps": list(steps)})
                 elif cmd == "release":
                     p.release()
                     acquired_at.pop(a, None)
@@ -618,6 +637,66 @@ RELEASE_SPANS_TAKEOVER = {
 }
 
 
+RENEW_AFTER_TAKEOVER = {
+    "scripts": {1: ["acquire", "renew", "is_held"], 2: ["acquire", "is_held"]},
+    # 1: create ; clock +61 ; 2: create(fails) head takeover ; 1: renewal (its If-Match fails) ; both look
+    "order": [1, 1, ("tick", 61), 2, 2, 2, 2, 1, 1, 1, 1, 1, 2, 2],
+}
+
+
+def _same_instance(ctx, rep, base):
+    """one FileLock / LocalLockProvider OBJECT used from two places: the second acquisition must wait and time out like any other contender;
+    a provider built with a timeout honours it"""
+    import time as _time
+    from datashard.file_lock import FileLock
+    from datashard.storage_backend import LocalStorageBackend
+    d = os.path.join(base, "same")
+    os.makedirs(d)
+    lk = FileLock(os.path.join(d, "s.lock"), timeout=0.3)
+    lk.acquire()
+    rep.evaluations += 1
+    rep.nontrivial(["same-instance"])
+    got = None
+    try:
+        got = lk.acquire(blocking=False)
+    except Exception:       # noqa: BLE001
+        got = False
+    if got:
+        rep.violate("C19:flock-two-holders", "the same FileLock object acquired a second time while held: a second thread sharing the object would "
+                    "enter the critical section", {"kind": "same-instance"})
+    res = []
+    th = threading.Thread(target=lambda: res.append(_try(lk)))
+    th.start()
+    th.join(5)
+    if res and res[0] is True:
+        rep.violate("C19:flock-two-holders", "a second thread acquired through the same FileLock object while the first holds it", {"kind": "same-instance", "via": "thread"})
+    lk.release()
+    # the timeout given to the provider is the one that is enforced
+    be = LocalStorageBackend(os.path.join(d, "tbl"))
+    holder = be.create_lock(".locks/t.lock", timeout=30.0)
+    waiter = be.create_lock(".locks/t.lock", timeout=0.4)
+    holder.acquire()
+    t0 = _time.monotonic()
+    rep.evaluations += 1
+    try:
+        waiter.acquire()
+        rep.violate("C19:flock-two-holders", "provider-level: acquired while another provider holds the lock", {"kind": "provider-timeout"})
+        waiter.release()
+    except TimeoutError:
+        el = _time.monotonic() - t0
+        if el > 0.4 + 0.5:
+            rep.violate("C19:timeout-exceeded", f"LocalLockProvider built with timeout=0.4 s raised TimeoutError after {el:.2f} s", {"kind": "provider-timeout"})
+    finally:
+        holder.release()
+
+
+def _try(lk):
+    try:
+        return lk.acquire()
+    except TimeoutError:
+        return False
+
+
 def run(ctx, model_ok):
     rep = Report()
     rep.rule = ("local: 2–3 FileLock instances (real kernel flock, one process, scheduler-driven attempts / releases / deaths / clock jumps past "
@@ -637,9 +716,11 @@ def run(ctx, model_ok):
         _flock_gap(ctx, rep, base)
         _fork_inherits(ctx, rep, base)
         _fallback_lock(ctx, rep, base)
+        _same_instance(ctx, rep, base)
         _s3_timeout_bound(ctx, rep, model_ok)
         try:
             _s3_case(ctx, rep, rng, model_ok, -1, directed=RELEASE_SPANS_TAKEOVER)
+            _s3_case(ctx, rep, rng, model_ok, -2, directed=RENEW_AFTER_TAKEOVER)
         except sched.Stuck as e:
             rep.notes.append(f"directed s3 case stuck: {e}")
         for i in range(ctx.budget(40, 800)):
